@@ -285,8 +285,9 @@ def _enum(name, values):
     return _SORTS[key]
 
 
-def explore_resolver(fname, pattern):
-    """all paths of the real resolver on symbolic arguments; returns (n_paths, failing concrete tuples)"""
+def explore_resolver(fname, pattern, classify=None, extra=None):
+    """all paths of the real resolver on symbolic arguments; returns (n_paths, failing concrete tuples).  With `classify`, a path that
+    resolves to signature sig is also 'failing' (with outcome classify(sig)) when classify returns a string; `extra(ops)` adds constraints"""
     from symx import smt
     if not _ALGS:
         _ALGS.update(_algs())
@@ -320,6 +321,8 @@ def explore_resolver(fname, pattern):
             try:
                 sig = f._resolver.resolve(tuple(args))
                 out = "ok"
+                if classify is not None:
+                    out = classify(sig) or "ok"
             except AmbiguousLookupError:
                 out = "ambiguous"
             except NotFoundLookupError:
@@ -327,6 +330,8 @@ def explore_resolver(fname, pattern):
             results.append((out, list(_D.pc)))
     finally:
         ps._is_bearable = _REAL_BEARABLE
+    if extra is not None:
+        base = base + list(extra(ops_))
     # enumerate the failing lattice points
     failing = {}
     for out, pc in results:
